@@ -218,6 +218,20 @@ Proof.
   destruct (o_submit (c_obs c)); [discriminate|reflexivity].
 Qed.
 
+(* a duty whose Prepare was seen to succeed was handed to Propose with the account the provider
+   holds for its own validator and the reveal that account gave for it *)
+Lemma P_b_sound_prepared_duty_own : forall c,
+  P_b c = true -> c_prepare c = true -> c_prep_ok c = true ->
+  exists a, c_post_account c = Some a /\ provided_account c = Some a
+            /\ e_sig_randao (c_env c) = Some (c_post_randao c).
+Proof.
+  intros c HP Hp Hok. destruct (P_b_clauses c HP) as (_ & _ & _ & _ & _ & _ & _ & _ & _ & _ & H).
+  unfold prepared_duty_own in H. rewrite Hp, Hok in H. cbn [andb negb orb] in H.
+  rewrite !andb_true_iff in H. destruct H as ((Hs & Ha) & Hr).
+  apply (option_eqb_spec N.eqb N_eqb_spec) in Ha, Hr.
+  destruct (c_post_account c) as [a|]; [|discriminate]. exists a. auto.
+Qed.
+
 Lemma P_b_sound_no_panic : forall c, P_b c = true -> o_panic (c_obs c) = false.
 Proof. intros c HP; apply (P_b_clauses c HP). Qed.
 
